@@ -534,15 +534,20 @@ class CustomSD(BaseCorrelations):
                         * (np.exp(-1j * w * tau) + np.exp(-expo))
                 return inte
 
-        integral = _complex_integral(integrand,
+        # integrate over the dimensionless frequency x = w / cutoff such that
+        # the quadrature does not depend on the unit of frequency
+        def scaled_integrand(x):
+            return self.cutoff * integrand(self.cutoff * x)
+
+        integral = _complex_integral(scaled_integrand,
                                      a=0.0,
-                                     b=self.cutoff,
+                                     b=1.0,
                                      epsrel=epsrel,
                                      limit=subdiv_limit)
 
         if self.cutoff_type != "hard":
-            integral += _complex_integral(integrand,
-                                          a=self.cutoff,
+            integral += _complex_integral(scaled_integrand,
+                                          a=1.0,
                                           b=np.inf,
                                           epsrel=epsrel,
                                           limit=subdiv_limit)
@@ -622,15 +627,20 @@ class CustomSD(BaseCorrelations):
                            - 1 + 1j * w * tau)
                 return inte
 
-        integral = _complex_integral(integrand,
+        # integrate over the dimensionless frequency x = w / cutoff such that
+        # the quadrature does not depend on the unit of frequency
+        def scaled_integrand(x):
+            return self.cutoff * integrand(self.cutoff * x)
+
+        integral = _complex_integral(scaled_integrand,
                                      a=0.0,
-                                     b=self.cutoff,
+                                     b=1.0,
                                      epsrel=epsrel,
                                      limit=subdiv_limit)
 
         if self.cutoff_type != "hard":
-            integral += _complex_integral(integrand,
-                                          a=self.cutoff,
+            integral += _complex_integral(scaled_integrand,
+                                          a=1.0,
                                           b=np.inf,
                                           epsrel=epsrel,
                                           limit=subdiv_limit)
